@@ -30,8 +30,9 @@ Print Assumptions C13_chunking.
    quoted triples `<< s p o >>` whose components are IRIs, blank nodes, plain or typed literals), EVERY
    chunk size, and EVERY prior database that satisfies the dictionary and quoted-triple-store invariants and
    has room for the new identifiers: the loaded database satisfies the invariants again and denotes exactly the prior
-   quads plus the quads the document says - unless the document has a literal of the re-cleaning
-   class (finding C13-literal-recleaned). *)
+   quads plus the quads the document says - literal values with leading or trailing white space, a leading quote
+   or angle brackets included (fix 16f77b9: a cleaned term is interned verbatim) - unless a literal's VALUE itself
+   starts with two '<' and ends with two '>' (what is left of finding C13-literal-recleaned: class known_C13_reclean). *)
 Theorem C13_ntriples :
   forall (n : nat) (doc : list item) (x : db),
     (1 <= n)%nat -> wf_doc_nt doc = true -> known_C13_reclean doc = false -> db_okq x ->
@@ -80,12 +81,32 @@ Theorem C13_ids_stable_nquads :
 Proof. exact nquads_ids_stable. Qed.
 Print Assumptions C13_ids_stable_nquads.
 
-(* the re-cleaning class is a genuine violation: the literal " x" is loaded as "x" *)
+(* C13-literal-recleaned.  Repaired for N-Triples / N-Quads by fix 16f77b9 (encode_cleaned_term): regression lemma -
+   the pre-fix encoding (`encode_triple_old`, Witness.v) stored " x" as "x"; the witness document now loads as the
+   Spec says and is outside the class. *)
+Theorem C13_reclean_regression :
+  lq_mem wc_missing (den_after_old (iA, iB, [32; 120])) = false /\
+  lq_mem (lq_of iA iB [120] None) (den_after_old (iA, iB, [32; 120])) = true /\
+  wf_doc_nt wc_doc = true /\ known_C13_reclean wc_doc = false /\
+  lq_mem wc_missing (den (load_nt (render_doc wc_doc) db_new)) = true.
+Proof. exact reclean_regression. Qed.
+Print Assumptions C13_reclean_regression.
+
+(* what is left of it (the class known_C13_reclean is now only this): a literal whose VALUE starts with << and ends
+   with >> is still parsed as a quoted triple ... *)
 Theorem C13_reclean_refuted :
-  wf_doc_nt wc_doc = true /\ known_C13_reclean wc_doc = true /\
-  ~ (forall lq, In lq (den (load_nt (render_doc wc_doc) db_new)) <-> In lq (den db_new) \/ In lq (map lq_of4 (triples_of wc_doc))).
+  wf_doc_nt wr_doc = true /\ known_C13_reclean wr_doc = true /\
+  ~ (forall lq, In lq (den (load_nt (render_doc wr_doc) db_new)) <-> In lq (den db_new) \/ In lq (map lq_of4 (triples_of wr_doc))).
 Proof. exact reclean_refuted. Qed.
 Print Assumptions C13_reclean_refuted.
+
+(* ... and a Turtle statement whose subject or object is a quoted triple still goes through encode_term_star, which
+   trims the statement's literal (class known_C13_ttl_reclean). *)
+Theorem C13_ttl_reclean_refuted :
+  known_C13_ttl_reclean wt_doc = true /\
+  ~ (forall lq, In lq (den (load_ttl (render_doc wt_doc) db_new)) <-> In lq (den db_new) \/ In lq (map lq_of4 (triples_of wt_doc))).
+Proof. exact ttl_reclean_refuted. Qed.
+Print Assumptions C13_ttl_reclean_refuted.
 
 (* (4) N3.  Outside the class known_C13_n3 (the receiving dictionary is empty AND the document has at
    most 1000 lines, i.e. one chunk) parse_n3 is right: for every document of the N3 subset (IRIs and
@@ -173,7 +194,7 @@ Print Assumptions C13_turtle.
 Theorem C13_formats_agree_partial :
   forall (doc : list item) (x : db),
     wf_doc_nt doc = true -> wf_doc_ttl doc = true ->
-    known_C13_reclean doc = false -> db_okq x -> pref_ok (d_pref x) ->
+    known_C13_reclean doc = false -> known_C13_ttl_reclean doc = false -> db_okq x -> pref_ok (d_pref x) ->
     next_id (d_dict x) + 10 * N.of_nat (length doc) <= QBIT ->
     forall lq,
       (In lq (den (load_nt (render_doc doc) x)) <-> In lq (den (load_nq (render_doc doc) x))) /\
